@@ -9,6 +9,7 @@ import (
 	"flag"
 	"fmt"
 	"go/ast"
+	"go/parser"
 	"go/printer"
 	"go/token"
 	"go/types"
@@ -530,6 +531,76 @@ func sqlFacts(out string) {
 	write(filepath.Join(out, "SqlFacts.lean"), sb.String())
 }
 
+// siteFacts lists every index, slice and unchecked type-assertion expression in the files that process
+// gossip input (C05), with the enclosing function, in source order.
+func siteFacts(repo, out string) {
+	files := []string{
+		"p2p/messaging.go", "p2p/message.go", "p2pmsg/messages.go",
+		"keyper/epochkghandler/keyshare.go", "keyper/epochkghandler/key.go", "keyper/epochkghandler/eonpublickey.go",
+		"keyperimpl/gnosis/handlers.go", "keyperimpl/gnosis/messagingmiddleware.go",
+		"keyperimpl/shutterservice/handlers.go", "keyperimpl/shutterservice/messagingmiddleware.go",
+		"keyperimpl/primev/handler.go", "keyperimpl/snapshot/trigger.go",
+		"gnosisaccessnode/decryptionkeyshandler.go", "snapshot/handler.go",
+	}
+	var sb strings.Builder
+	sb.WriteString("/- GENERATED by harness/factx from the gossip-processing files of /repo — do not edit. -/\nnamespace Shutter.Generated.SiteFacts\n\n")
+	sb.WriteString("/-- (file, function, kind, expression) of every index / slice / unchecked type assertion -/\ndef sites : List (String × String × String × String) := [\n")
+	first := true
+	for _, rel := range files {
+		fset := token.NewFileSet()
+		file, err := parser.ParseFile(fset, filepath.Join(repo, "rolling-shutter", rel), nil, 0)
+		if err != nil {
+			fmt.Fprintln(os.Stderr, "factx: sites:", err)
+			os.Exit(1)
+		}
+		for _, d := range file.Decls {
+			fd, ok := d.(*ast.FuncDecl)
+			if !ok || fd.Body == nil {
+				continue
+			}
+			checked := map[ast.Node]bool{}
+			ast.Inspect(fd.Body, func(n ast.Node) bool {
+				if as, ok := n.(*ast.AssignStmt); ok && len(as.Lhs) == 2 && len(as.Rhs) == 1 {
+					if ta, ok := as.Rhs[0].(*ast.TypeAssertExpr); ok {
+						checked[ta] = true
+					}
+				}
+				if ts, ok := n.(*ast.TypeSwitchStmt); ok {
+					ast.Inspect(ts.Assign, func(m ast.Node) bool {
+						if ta, ok := m.(*ast.TypeAssertExpr); ok {
+							checked[ta] = true
+						}
+						return true
+					})
+				}
+				return true
+			})
+			emit := func(kind string, n ast.Node) {
+				if !first {
+					sb.WriteString(",\n")
+				}
+				first = false
+				fmt.Fprintf(&sb, "  (%s, %s, %s, %s)", leanStr(rel), leanStr(funcName(fd)), leanStr(kind), leanStr(nodeText(fset, n)))
+			}
+			ast.Inspect(fd.Body, func(n ast.Node) bool {
+				switch e := n.(type) {
+				case *ast.IndexExpr:
+					emit("index", e)
+				case *ast.SliceExpr:
+					emit("slice", e)
+				case *ast.TypeAssertExpr:
+					if !checked[e] && e.Type != nil {
+						emit("assert", e)
+					}
+				}
+				return true
+			})
+		}
+	}
+	sb.WriteString("]\n\nend Shutter.Generated.SiteFacts\n")
+	write(filepath.Join(out, "SiteFacts.lean"), sb.String())
+}
+
 func dedup(ps [][2]string) [][2]string {
 	out := [][2]string{}
 	for i, p := range ps {
@@ -576,6 +647,8 @@ func main() {
 			apiFacts(*repo, *out)
 		case "sql":
 			sqlFacts(*out)
+		case "sites":
+			siteFacts(*repo, *out)
 		default:
 			fmt.Fprintln(os.Stderr, "factx: unknown fact set", what)
 			os.Exit(1)
